@@ -180,6 +180,10 @@ def rule_fingering(ctx):
         ([[1, 6, None, 11], [2, 7, 12, 0]], 3),
         ([[None, None], [1, 2]], 4),
         ([[7, 2], [7, 2]], 6),
+        # three notes, wide hand: the sub-searches must use the caller's span (sub-span 5 exceeds the default 4)
+        ([[1, 4, 9], [6, 2, 1], [3, 6, 6]], 6),
+        ([[1, 9, None], [6, 2, 1], [3, 6, 6], [None, 1, 7]], 9),
+        ([[2, 7, 12], [9, 1, 4], [5, 5, 5]], 2),
     ]
     for table, maxd in tables:
         notes = [Token("n%d" % i) for i in range(len(table))]
